@@ -10,11 +10,27 @@ use serde::de::IntoDeserializer;
 // ---------------------------------------------------------------------------------------
 pub fn k_is_expired() {
     let id = nd::any_u128();
-    let n = nd::any_u64();
-    let now = nd::any_u64();
-    env::stdm::time::set_clock(now);
+    let now_s = nd::any_u64();
+    let now_ns = nd::any_u32();
+    nd::assume(now_ns < 1_000_000_000);
+    let now128 = (now_s as u128) * 1000 + (now_ns / 1_000_000) as u128;
+    nd::assume(now128 <= u64::MAX as u128);
+    let now = now128 as u64;
+    env::stdm::time::set_clock_parts(now_s, now_ns);
+    // every Duration whose length in ms fits u64 - a superset of what parse_ttl produces (that
+    // from_millis(n).as_millis() == n for every n is k_millis_roundtrip_all's business; feeding
+    // `from_millis(n)` itself here makes the solver redo a 64-bit division proof and did not finish)
+    let secs = nd::any_u64();
+    let nanos = nd::any_u32();
+    nd::assume(nanos < 1_000_000_000);
+    // the ttl in ms, by the same expression as Duration::as_millis (so the SAT back end sees one
+    // divider, not an equivalence proof between two)
+    let n128 = (secs as u128) * 1000 + (nanos / 1_000_000) as u128;
+    nd::assume(n128 <= u64::MAX as u128);
+    let n = n128 as u64;
+    let ttl = Duration::new(secs, nanos);
     let sid = Scru128Id::from_u128(id);
-    let got = is_expired(&sid, &Duration::from_millis(n));
+    let got = is_expired(&sid, &ttl);
     let ts = (id >> 80) as u64;
     let deadline = match ts.checked_add(n) {
         Some(d) => d,
@@ -275,6 +291,26 @@ pub fn k_ttl_roundtrip<const KIND: u8, const D: usize>() {
     hx_cover!(true, "reached");
 }
 
+/// C12: round trip of concrete values at unit boundaries (1 ms, 999 ms, 1 s, 1.5 s, 1 day, u64::MAX ms;
+/// head 1, 10, u32::MAX) through the real Serialize -> Deserialize and to_query -> parse_ttl. The
+/// solver-quantified versions above (every n with D digits) run the SAT back end out of 40 GB.
+pub fn k_ttl_roundtrip_concrete<const KIND: u8, const N: u64>() {
+    env::fmt::dec_schoolbook(true);
+    let t = if KIND == 2 { TTL::Time(Duration::from_millis(N)) } else { TTL::Head(N as u32) };
+    let js = serde::Serialize::serialize(&t, StrCapture);
+    hx_check!(js.is_ok(), "C12 TTL serialises to a string");
+    let js = js.unwrap();
+    let back: Result<TTL, CapErr> =
+        <TTL as serde::Deserialize>::deserialize(serde::de::value::StringDeserializer::<CapErr>::new(js.clone()));
+    hx_check!(ttl_eq(&back.ok(), &Some(t.clone())), "C12 TTL survives its JSON-string spelling (ser then de)");
+    let q = t.to_query();
+    hx_check!(q.len() > 4 && &q.as_bytes()[..4] == b"ttl=", "C12 to_query emits ttl=<spelling>");
+    let back2 = parse_ttl(&q[4..]).ok();
+    hx_check!(ttl_eq(&back2, &Some(t.clone())), "C12 TTL survives its query spelling");
+    hx_check!(bytes_eq(q[4..].as_bytes(), js.as_bytes()), "C12 query and JSON spellings agree");
+    hx_cover!(true, "reached");
+}
+
 // ---------------------------------------------------------------------------------------
 // C12: follow / tail option deserialisers vs. their tables, every UTF-8 string of L bytes
 // ---------------------------------------------------------------------------------------
@@ -349,6 +385,15 @@ crate::scenarios! {
     k_ttl_roundtrip_head_1 => k_ttl_roundtrip::<3, 1>();
     k_ttl_roundtrip_head_3 => k_ttl_roundtrip::<3, 3>();
     k_ttl_roundtrip_head_10 => k_ttl_roundtrip::<3, 10>();
+    k_ttl_rt_time_1 => k_ttl_roundtrip_concrete::<2, 1>();
+    k_ttl_rt_time_999 => k_ttl_roundtrip_concrete::<2, 999>();
+    k_ttl_rt_time_1000 => k_ttl_roundtrip_concrete::<2, 1000>();
+    k_ttl_rt_time_1500 => k_ttl_roundtrip_concrete::<2, 1500>();
+    k_ttl_rt_time_day => k_ttl_roundtrip_concrete::<2, 86400000>();
+    k_ttl_rt_time_max => k_ttl_roundtrip_concrete::<2, 18446744073709551615>();
+    k_ttl_rt_head_1 => k_ttl_roundtrip_concrete::<3, 1>();
+    k_ttl_rt_head_10 => k_ttl_roundtrip_concrete::<3, 10>();
+    k_ttl_rt_head_max => k_ttl_roundtrip_concrete::<3, 4294967295>();
     k_follow_option_0 => k_follow_option::<0>();
     k_follow_option_1 => k_follow_option::<1>();
     k_follow_option_2 => k_follow_option::<2>();
